@@ -253,6 +253,13 @@ pub struct ServerOpts {
     pub vmess_wrong_keys: bool,
     #[serde(default)]
     pub max_chunk: Option<usize>,
+    /// VMess: plaintext of the (well sealed) response header instead of `V opt 0 0` - empty, one byte, long
+    #[serde(default)]
+    pub vmess_resp_header_raw: Option<Vec<u8>>,
+    /// VMess: after the data, a chunk whose size field is wrong inside (0 below the padding, 1 below padding + tag,
+    /// 2 zero, 3 one, 4 equal to the padding, 5 beyond the stream)
+    #[serde(default)]
+    pub vmess_bad_chunk: Option<u8>,
 }
 
 pub struct RefServer {
@@ -398,12 +405,26 @@ impl RefServer {
                         r.body_key[0] ^= 1;
                     }
                     let auth = if o.vmess_wrong_auth { r.resp_auth.wrapping_add(1) } else { r.resp_auth };
-                    out.extend(refimpl::vmess::response_header(&r, auth, r.options));
+                    match &o.vmess_resp_header_raw {
+                        Some(raw) => out.extend(refimpl::vmess::response_header_raw(&r, raw)),
+                        None => out.extend(refimpl::vmess::response_header(&r, auth, r.options)),
+                    }
                     *enc = Some(refimpl::vmess::response_body(&r));
                     *resp_header_sent = true;
                 }
                 let e = enc.as_mut().unwrap();
                 out.extend(if op.request.command == 2 { e.encode_chunk(data) } else { e.write(data, o.max_chunk.unwrap_or(1900)) });
+                if let Some(v) = o.vmess_bad_chunk {
+                    let junk = [0x5au8; 40];
+                    out.extend(match v {
+                        0 => e.encode_chunk_declared(|p| p.saturating_sub(1) as u16, &junk),
+                        1 => e.encode_chunk_declared(|p| (p + 7) as u16, &junk),
+                        2 => e.encode_chunk_declared(|_| 0, &junk),
+                        3 => e.encode_chunk_declared(|_| 1, &junk),
+                        4 => e.encode_chunk_declared(|p| p as u16, &junk),
+                        _ => e.encode_chunk_declared(|_| 0xffff, &junk),
+                    });
+                }
                 Some(out)
             }
             ServerState::Trojan { header, .. } => {
